@@ -314,6 +314,101 @@ Definition verify_required (k : contract) : option req :=
   | _ => None
   end.
 
+(** * Rows with a machine-checked inertness theorem
+    (requirement unmet => the family model's step returns the same state, no
+    token movement, no notification, a refusal), with the name of the theorem
+    of Props/C03.v.  Plain data here; Props/C03.v [C03_models_cover] proves
+    that the list is exactly the set of keys the models' operations map to. *)
+Definition proved_rows : list (mkey * string) := [
+  ((KBalance, "burn", 3), "C03_inert_Balance, C03_inert_Container");
+  ((KBalance, "lock", 5), "C03_inert_Balance, C03_inert_Container");
+  ((KBalance, "mint", 3), "C03_inert_Balance, C03_inert_Container");
+  ((KBalance, "newEpoch", 1), "C03_inert_Balance, C03_inert_Container");
+  ((KBalance, "transfer", 4), "C03_inert_Balance, C03_inert_Container");
+  ((KBalance, "transferX", 4), "C03_inert_Balance, C03_inert_Container");
+  ((KReputation, "put", 3), "C03_inert_Reputation");
+  ((KNeoFSID, "addKey", 2), "C03_inert_NeoFSID");
+  ((KNeoFSID, "removeKey", 2), "C03_inert_NeoFSID");
+  ((KNetmap, "setConfig", 3), "C03_inert_Config, C03_inert_Container");
+  ((KAudit, "put", 1), "C03_inert_Audit");
+  ((KContainer, "putContainerSize", 4), "C03_inert_Estimations");
+  ((KContainer, "newEpoch", 1), "C03_inert_Estimations");
+  ((KContainer, "addNextEpochNodes", 3), "C03_inert_Placement");
+  ((KContainer, "commitContainerListUpdate", 2), "C03_inert_Placement");
+  ((KContainer, "submitObjectPut", 2), "C03_inert_Placement (open row: RArgSigs)");
+  ((KContainer, "put", 4), "C03_inert_Container");
+  ((KContainer, "put", 5), "C03_inert_Container");
+  ((KContainer, "putNamed", 6), "C03_inert_Container");
+  ((KContainer, "delete", 3), "C03_inert_Container");
+  ((KContainer, "setEACL", 4), "C03_inert_Container");
+  ((KNeoFS, "setConfig", 3), "C03_inert_Config (notary), C03_inert_NeoFSVote (no notary), C03_inert_GasWorld (both)");
+  ((KNeoFS, "cheque", 4), "C03_inert_NeoFSVote (no notary), C03_inert_GasWorld (both)");
+  ((KNeoFS, "alphabetUpdate", 2), "C03_inert_NeoFSVote (no notary), C03_inert_GasWorld (both)");
+  ((KNeoFS, "innerRingCandidateRemove", 1), "C03_inert_NeoFSVote (no notary), C03_inert_GasWorld (both)");
+  ((KNeoFS, "innerRingCandidateAdd", 1), "C03_inert_NeoFSVote, C03_inert_GasWorld");
+  ((KNeoFS, "withdraw", 2), "C03_inert_GasWorld");
+  ((KNeoFS, "bind", 2), "C03_inert_GasWorld");
+  ((KNeoFS, "unbind", 2), "C03_inert_GasWorld");
+  ((KNeoFS, "onNEP17Payment", 3), "C03_inert_GasWorld");
+  ((KAlphabet, "emit", 0), "C03_inert_GasWorld");
+  ((KAlphabet, "onNEP17Payment", 3), "C03_inert_GasWorld");
+  ((KProcessing, "onNEP17Payment", 3), "C03_inert_GasWorld");
+  ((KProxy, "onNEP17Payment", 3), "C03_inert_GasWorld");
+  ((KNetmap, "newEpoch", 1), "C03_inert_Netmap");
+  ((KNetmap, "addPeer", 1), "C03_inert_Netmap");
+  ((KNetmap, "addPeerIR", 1), "C03_inert_Netmap");
+  ((KNetmap, "addNode", 1), "C03_inert_Netmap");
+  ((KNetmap, "deleteNode", 1), "C03_inert_Netmap");
+  ((KNetmap, "updateState", 2), "C03_inert_Netmap");
+  ((KNetmap, "updateStateIR", 2), "C03_inert_Netmap");
+  ((KNetmap, "updateSnapshotCount", 1), "C03_inert_Netmap");
+  ((KNetmap, "subscribeForNewEpoch", 1), "C03_inert_Netmap");
+  ((KNNS, "register", 7), "C03_inert_NNS");
+  ((KNNS, "registerTLD", 6), "C03_inert_NNS");
+  ((KNNS, "transfer", 3), "C03_inert_NNS");
+  ((KNNS, "renew", 2), "C03_inert_NNS");
+  ((KNNS, "renew", 1), "C03_inert_NNS (RenewDefault = Renew name 1)");
+  ((KNNS, "setAdmin", 2), "C03_inert_NNS");
+  ((KNNS, "addRecord", 3), "C03_inert_NNS");
+  ((KNNS, "setRecord", 4), "C03_inert_NNS");
+  ((KNNS, "deleteRecords", 2), "C03_inert_NNS");
+  ((KNNS, "updateSOA", 6), "C03_inert_NNS");
+  ((KNNS, "setPrice", 1), "C03_inert_NNS");
+  ((KAlphabet, "update", 3), "C03_inert_Update");
+  ((KAudit, "update", 3), "C03_inert_Update");
+  ((KBalance, "update", 3), "C03_inert_Update");
+  ((KContainer, "update", 3), "C03_inert_Update");
+  ((KNeoFS, "update", 3), "C03_inert_Update");
+  ((KNeoFSID, "update", 3), "C03_inert_Update");
+  ((KNetmap, "update", 3), "C03_inert_Update");
+  ((KNNS, "update", 3), "C03_inert_Update");
+  ((KProcessing, "update", 3), "C03_inert_Update");
+  ((KProxy, "update", 3), "C03_inert_Update");
+  ((KReputation, "update", 3), "C03_inert_Update");
+  ((KContainer, "startContainerEstimation", 1), "C03_inert_Estimation_signals");
+  ((KContainer, "stopContainerEstimation", 1), "C03_inert_Estimation_signals");
+  ((KAlphabet, "vote", 2), "C03_inert_Vote");
+  ((KAlphabet, "_deploy", 2), "C03_inert_Underscore (platform rule)");
+  ((KAudit, "_deploy", 2), "C03_inert_Underscore (platform rule)");
+  ((KBalance, "_deploy", 2), "C03_inert_Underscore (platform rule)");
+  ((KContainer, "_deploy", 2), "C03_inert_Underscore (platform rule)");
+  ((KNeoFS, "_deploy", 2), "C03_inert_Underscore (platform rule)");
+  ((KNeoFSID, "_deploy", 2), "C03_inert_Underscore (platform rule)");
+  ((KNetmap, "_deploy", 2), "C03_inert_Underscore (platform rule)");
+  ((KNNS, "_deploy", 2), "C03_inert_Underscore (platform rule)");
+  ((KProcessing, "_deploy", 2), "C03_inert_Underscore (platform rule)");
+  ((KProxy, "_deploy", 2), "C03_inert_Underscore (platform rule)");
+  ((KReputation, "_deploy", 2), "C03_inert_Underscore (platform rule)");
+  ((KAlphabet, "_initialize", 0), "C03_inert_Underscore (platform rule)");
+  ((KBalance, "_initialize", 0), "C03_inert_Underscore (platform rule)");
+  ((KContainer, "_initialize", 0), "C03_inert_Underscore (platform rule)");
+  ((KNeoFS, "_initialize", 0), "C03_inert_Underscore (platform rule)");
+  ((KNeoFSID, "_initialize", 0), "C03_inert_Underscore (platform rule)");
+  ((KNetmap, "_initialize", 0), "C03_inert_Underscore (platform rule)");
+  ((KNNS, "_initialize", 0), "C03_inert_Underscore (platform rule)");
+  ((KReputation, "_initialize", 0), "C03_inert_Underscore (platform rule)")
+].
+
 (** * Decidable equality of requirements (the harness prints its own copy
     of each row; the cases file checks that both agree) *)
 Definition token_eqb (a b : token) : bool :=
